@@ -161,8 +161,34 @@ fn finish_run<C: Checker<GraphModel>>(
     rtc: bool,
     rec: &Arc<Mutex<Vec<PathV>>>,
 ) -> Obs {
+    finish_run_with(c, rtc, rec, &mut || true)
+}
+
+/// `between` runs after the checker was spawned (and told to run to completion) and before join():
+/// this is where the controlled scheduler drives the parked worker threads.
+pub fn finish_run_with<C: Checker<GraphModel>>(
+    c: C,
+    rtc: bool,
+    rec: &Arc<Mutex<Vec<PathV>>>,
+    between: &mut dyn FnMut() -> bool,
+) -> Obs {
     if rtc {
         c.run_to_completion();
+    }
+    if !between() {
+        // the workers are parked for good (deadlock / horizon verdict): never join them
+        std::mem::forget(c);
+        return Obs {
+            visited: std::mem::take(&mut *rec.lock().unwrap()),
+            unique: 0,
+            count: 0,
+            max_depth: 0,
+            is_done: false,
+            disc: Ok(Disc::new()),
+            assert_ok: false,
+            join_panicked: false,
+            class: Default::default(),
+        };
     }
     let joined = catch_unwind(AssertUnwindSafe(move || c.join()));
     let mut obs = Obs {
